@@ -3,3 +3,5 @@ import FFVerif.Model.Proto
 import FFVerif.Props.Spec
 import FFVerif.Props.C01
 import FFVerif.Proofs.C01
+import FFVerif.Props.C02
+import FFVerif.Proofs.C02
